@@ -67,14 +67,10 @@ impl<const N: usize, T: Send + Sync> ConIterOfArray<N, T> {
     unsafe fn split_off_right(&self, left_len: usize) -> Vec<T> {
         debug_assert!(left_len <= N);
 
-        let man_array = &mut *self.array.get();
-        let mut array = ManuallyDrop::take(man_array);
-
-        let mut vec = Vec::from_raw_parts(array.as_mut_ptr(), N, 0);
-        let right_vec = vec.split_off(left_len);
-
-        *man_array = ManuallyDrop::new(array);
-        right_vec
+        // moves the elements at positions `left_len..N` out of the array;
+        // the array itself is never dropped, hence, each element has a single owner
+        let ptr = self.array.get() as *const T;
+        (left_len..N).map(|i| ptr.add(i).read()).collect()
     }
 }
 
@@ -190,6 +186,8 @@ impl<const N: usize, T: Send + Sync> ConcurrentIter for ConIterOfArray<N, T> {
     fn into_seq_iter(self) -> Self::SeqIter {
         let current = self.counter().current();
         let remaining_vec = unsafe { self.split_off_right(current.min(N)) };
+        // the remaining elements are moved out: nothing is left to be dropped together with `self`
+        self.counter().store(N);
         remaining_vec.into_iter()
     }
 
